@@ -274,8 +274,8 @@ func (vm *VM) posStr(pos token.Pos) string {
 	}
 	p := vm.prog.Fset.Position(pos)
 	f := p.Filename
-	if len(f) > 6 && f[:6] == "/repo/" {
-		f = f[6:]
+	if pre := repoDir + "/"; strings.HasPrefix(f, pre) {
+		f = f[len(pre):]
 	}
 	return fmt.Sprintf("%s:%d", f, p.Line)
 }
